@@ -387,12 +387,12 @@ class C10:
                 cases.append(self.rerun({'lt': [pyobs.enc(v), pyobs.enc(w)]}))
                 cases.append(self.rerun({'lt': [pyobs.enc(w), pyobs.enc(v)]}))
         if thorough:
-            for _ in range(3000):
+            for _ in range(1500):
                 v, w = rand_value(rng, 'KMixed'), rand_value(rng, 'KMixed')
                 cases.append(self.rerun({'lt': [pyobs.enc(v), pyobs.enc(w)]}))
         # (b) tables
         lengths = list(range(0, 13)) + ([16, 20, 27, 40] if thorough else [])
-        nrep = 10 if thorough else 3
+        nrep = 6 if thorough else 3
         for kind in KINDS:
             for n in lengths:
                 for rep in range(nrep):
